@@ -573,7 +573,10 @@ def run_property(prop, tier, out):
         provs = sum(1 for r in rows if r["t"] == "prove")
         out.add(member_cases=member)
         if member < provs:
-            raise ToolError(f"scenario error: only {member} of {provs} proving cases found the member's commitment at its position")
+            # (on the unchanged tree every case is a member case; a tree that does not hold what was written is C06's to report)
+            out.notes.append(f"only {member} of {provs} proving cases found the member's commitment at its position; the others are not judged")
+            if member < provs // 2:
+                raise ToolError(f"scenario error: only {member} of {provs} proving cases found the member's commitment at its position")
     # negative control: flip one recorded verdict / result and demand a rejection
     # (skipped when deviations were reported: the judge demonstrably rejects, and the violation must not be masked)
     neg = negative_control(prop, wd, rows, tb, kf_names) if not res["dev"] else True
